@@ -96,7 +96,7 @@ class Run:
         cfgdir, self.cfgsrc = config_h_dir(tmp)
         if s.get("config"): cfgdir = derive_config(tmp, s["config"]); self.cfgsrc = "generated variant '%s' of config.h" % s["config"]
         entry = s.get("entry", "harness")
-        inc = ["-I" + cfgdir, "-I" + REPO + "/src", "-I" + REPO, "-I" + VERIF + "/include", "-I" + VERIF + "/contracts", "-I" + VERIF, "-I" + tmp]
+        inc = ["-I" + cfgdir, "-I" + REPO + "/src", "-I" + REPO, "-I" + VERIF + "/include", "-I" + VERIF + "/contracts", "-I" + VERIF, "-I" + VERIF + "/harness", "-I" + tmp]
         for d in s.get("incdirs", []): inc.append("-I" + d.replace("{repo}", REPO).replace("{tmp}", tmp))
         cc = ["goto-cc", "-DHAVE_CONFIG_H", "-DSNOOPY_VERIF_CBMC"] + inc + ["--function", entry]
         for d in s.get("defines", []): cc.append("-D" + d)
@@ -120,7 +120,7 @@ class Run:
         d = s.get("dfcc")
         if d is not None:
             b = os.path.join(tmp, "b.gb")
-            cmd = ["goto-instrument", "--dfcc", entry]
+            cmd = ["goto-instrument", "--dfcc", entry, "--no-malloc-may-fail"]
             if d.get("enforce"): cmd += ["--enforce-contract", d["enforce"]]
             for r in d.get("replace", []): cmd += ["--replace-call-with-contract", r]
             if d.get("loops"):
@@ -141,7 +141,7 @@ class Run:
         if d is not None and "--sat-solver" not in flags: flags += ["--sat-solver", "cadical"]
         if "--object-bits" not in flags: flags += ["--object-bits", "12"]
         if "--no-malloc-may-fail" not in flags: flags += ["--no-malloc-may-fail"]
-        if self.kind == "B" and "--unwinding-assertions" not in flags: flags += ["--unwinding-assertions"]
+        if "--unwinding-assertions" not in flags: flags += ["--unwinding-assertions"]   # a silently cut loop would make any run unsound
         cmd = ["cbmc", gb, "--json-ui", "--no-standard-checks"] + flags
         self.cbmc_cmd = cmd
         self.cmds.append(" ".join(cmd))
@@ -166,7 +166,11 @@ class Run:
         self.traces = {}
         fails = [r for r in res if r["status"] == "FAILURE" and not r["description"].startswith("canary:")
                  and not INTERNAL_FN_RE.match(r.get("sourceLocation", {}).get("function", "") or "")]
-        for r in fails[:3]:
+        def _pri(r):
+            f = (r.get("sourceLocation", {}) or {}).get("file", "") or ""
+            return 0 if f.startswith(REPO) else (1 if "/harness/" in f or "/contracts/" in f else 2)
+        fails.sort(key=_pri)
+        for r in fails[:2]:
             cmd2 = ["cbmc", gb, "--json-ui", "--no-standard-checks", "--trace", "--property", r["property"]] + flags
             rc2, out2, err2, dt2 = sh(cmd2, s.get("timeout", 600))
             try:
@@ -269,6 +273,7 @@ def main():
     violations = []; known_hits = []; tool_errors = []; run_reports = []
     n_obl = n_dis = 0; samples = []; assumptions = set(spec.get("assumptions", []))
     functions = set()
+    if not args.only: shutil.rmtree(os.path.join(VERIF, "replays", prop), ignore_errors=True)
     os.makedirs(os.path.join(VERIF, "replays", prop), exist_ok=True)
     for run in runs:
         rep = {"id": run.id, "kind": run.kind, "bound": run.s.get("bound"), "functions_under_contract": run.s.get("functions", []),
@@ -308,9 +313,22 @@ def main():
             if len(samples) < 12: samples.append({"run": run.id, "obligation": r["property"], "description": r["description"], "status": r["status"], "site": site_of(r)})
         if run.kind == "U":
             n_obl += len(obl); n_dis += rep["discharged"]
-        statuses = []
+        # one violation per run: the primary failing obligation (first one located in snoopy's own code, else the
+        # first property-class one); the others are listed in the same replay file as consequences/siblings
+        unknown = [r for r in hard if not known_match(known, prop, run, r)]
         for r in hard:
             k = known_match(known, prop, run, r)
+            if k: known_hits.append((k, run, r))
+        if unknown:
+            def rank(r):
+                site = site_of(r); d = r["description"]
+                if r["property"] in run.traces: base = 0
+                else: base = 10
+                if site.startswith("verif:harness") or site.startswith("verif:contracts"): return base + 1   # postcondition from the property statement
+                if not site.startswith("verif:") and not site.startswith(":"): return base + 0            # inside snoopy code
+                return base + 2
+            unknown.sort(key=rank)
+            r = unknown[0]
             trace = run.traces.get(r["property"])
             inputs = trace_inputs(trace) if trace else {}
             safe = re.sub(r"[^A-Za-z0-9_.-]", "_", "%s__%s" % (run.id, r["property"]))
@@ -318,14 +336,13 @@ def main():
             doc = {"property": prop, "run": run.id, "obligation": r["property"], "description": r["description"], "site": site_of(r),
                    "source_location": r.get("sourceLocation"), "kind": run.kind, "bound": run.s.get("bound"),
                    "inputs_from_counterexample": inputs, "trace_tail": trace_tail(trace) if trace else [],
-                   "cbmc_cmd": " ".join(getattr(run, "cbmc_cmd", [])), "verifier_output": "[%s] %s: %s" % (r["property"], r["description"], r["status"])}
+                   "cbmc_cmd": " ".join(getattr(run, "cbmc_cmd", [])), "verifier_output": "[%s] %s: %s" % (r["property"], r["description"], r["status"]),
+                   "other_failed_obligations_in_this_run": ["[%s] %s @ %s" % (x["property"], x["description"], site_of(x)) for x in unknown[1:60]]}
             json.dump(doc, open(rp, "w"), indent=1)
-            if k:
-                known_hits.append((k, run, r)); statuses.append("known-finding"); continue
             repro, txt = native_replay(prop, run, r, inputs, rp)
             doc["native_replay"] = {"reproduced": repro, "output": txt}
             json.dump(doc, open(rp, "w"), indent=1)
-            violations.append((run, r, rp, repro))
+            violations.append((run, r, rp, repro, len(unknown)))
         if hard:
             rep["status"] = "FAILED: " + "; ".join("%s [%s]" % (r["description"], site_of(r)) for r in hard[:4])
         elif aux:
@@ -348,10 +365,10 @@ def main():
         if key in printed: continue
         printed.add(key)
         print("KNOWN-FINDING: property=%s %s" % (prop, k.get("what", r["description"])))
-    for run, r, rp, repro in violations:
+    for run, r, rp, repro, nfail in violations:
         tail = "" if repro else " no-failing-input-found"
         print("VIOLATION property=%s replay=%s%s" % (prop, rp, tail))
-        print("  run=%s obligation=%s : %s [%s]" % (run.id, r["property"], r["description"], site_of(r)))
+        print("  run=%s obligation=%s : %s [%s]%s" % (run.id, r["property"], r["description"], site_of(r), (" (+%d more failed obligations in this run, listed in the replay file)" % (nfail - 1)) if nfail > 1 else ""))
     for run, e in tool_errors:
         print("TOOL-ERROR property=%s run=%s %s" % (prop, run.id, e.splitlines()[0][:300] if e else ""))
         if e and "\n" in e: print("   " + "\n   ".join(e.splitlines()[1:15]))
